@@ -61,9 +61,13 @@ def differential(ck, impl_exe, cases, oracle, corr_exempt=None, env=None, need_s
 
 def finish_proof(ck, rule, assumptions=()):
     """adds the 'proof broken but nothing found' violation if needed and writes evidence"""
-    if not ck.proof_ok and not any(f for (_, _, f) in ck.violations):
-        if not any(True for _ in ck.violations):
-            ck.violation("the property is no longer shown to hold: " + str(ck.broken), {"class": None, "broken": ck.broken, "make_output_tail": getattr(ck, "make_tail", "")[-1500:]}, found_input=False)
+    kf = wv.known_findings()
+    def known(rep):
+        return any(k["property"] == ck.pid and rep.get("class") is not None and k.get("class") == rep.get("class") for k in kf.get("findings", []))
+    real = [v for v in ck.violations if not known(v[1])]
+    if not ck.proof_ok and not any(f for (_, _, f) in real):
+        ck.violations = [v for v in ck.violations if known(v[1])]   # a missing proof outranks 'correspondence differs'
+        ck.violation("the property is no longer shown to hold: " + str(ck.broken), {"class": None, "broken": ck.broken, "make_output_tail": getattr(ck, "make_tail", "")[-1500:]}, found_input=False)
     ck.cov.pop("_distinct", None)
     ck.cov["trusted_base"] = wv.TRUSTED_BASE
     return ck.finish(level="proof", assumptions=assumptions, rule=rule)
